@@ -69,7 +69,8 @@ def fuzz_stage(spec, prop, tier, harness, bindir, rundir, keepdir, goenv, modfla
     if not execs:
         return lines, events, incon, herr
     testbin = os.path.join(bindir, "fuzz-%s.test" % prop.lower())
-    cmd = ["go", "test"] + modflag + ["-c", "-tags", "verif", "-o", testbin, spec["pkg"]]
+    # -fuzz at build time adds the coverage instrumentation the engine needs for its guidance
+    cmd = ["go", "test"] + modflag + ["-c", "-tags", "verif", "-fuzz", "^%s$" % spec["func"], "-o", testbin, spec["pkg"]]
     p = subprocess.run(cmd, cwd=harness, env=goenv, stdout=subprocess.PIPE, stderr=subprocess.STDOUT, text=True)
     if p.returncode != 0:
         herr.append("fuzz test binary does not build: " + p.stdout[-1500:])
@@ -77,7 +78,7 @@ def fuzz_stage(spec, prop, tier, harness, bindir, rundir, keepdir, goenv, modfla
     env = dict(goenv)
     env["VERIF_FUZZ_LIST"] = "1"
     p = subprocess.run([testbin, "-test.run", "^TestFuzzTargets$", "-test.v"], env=env, stdout=subprocess.PIPE, stderr=subprocess.STDOUT, text=True)
-    names = re.findall(r"^TARGET (\d+) (.*)$", p.stdout, re.M)
+    names = re.findall(r"^\s*TARGET (\d+) (.*)$", p.stdout, re.M)
     if not names:
         herr.append("fuzz test binary lists no targets: " + p.stdout[-800:])
         return lines, events, incon, herr
